@@ -50,6 +50,11 @@ struct Layout {
     pad: bool,
     /// numbers written as 1225e-2 instead of 12.25
     exp_form: bool,
+    /// gzip only: the file is a MULTI-MEMBER gzip (`cat a.gz b.gz`), the rows split over 2-3 members at line
+    /// boundaries. The readers use flate2's single-member GzDecoder, so for the loader the file IS its first
+    /// member (header + the first rows): line count and row reader must agree on that.
+    #[serde(default)]
+    gz_members: usize,
 }
 
 #[derive(Clone, Debug, Serialize, Deserialize)]
@@ -116,6 +121,7 @@ fn plain_layout(cols: &[&str]) -> Layout {
         columns: cols.iter().map(|s| s.to_string()).collect(),
         pad: false,
         exp_form: false,
+        gz_members: 0,
     }
 }
 
@@ -293,6 +299,38 @@ fn write_file(dir: &Path, stem: &str, fmt: Fmt, text: &str) -> PathBuf {
         Fmt::GzNoExt => format!("{}_gz_noext.csv", stem),
     };
     write_file_at(dir.join(name), fmt, text)
+}
+/// splits a text of `1 + rows` lines (+ optional header handled by the caller via `head_lines`) into gzip members
+/// at line boundaries; returns the member texts and the number of data rows in the first one
+fn split_members(text: &str, head_lines: usize, members: usize) -> (Vec<String>, usize) {
+    let lines: Vec<&str> = text.split_inclusive('\n').collect();
+    let rows = lines.len().saturating_sub(head_lines);
+    if members < 2 || rows < 2 {
+        return (vec![text.to_string()], rows);
+    }
+    let chunk = (rows + members - 1) / members;
+    let mut out = vec![];
+    let mut first = lines[..head_lines + chunk].concat();
+    if !first.ends_with('\n') {
+        first.push('\n');
+    }
+    out.push(first);
+    let mut k = head_lines + chunk;
+    while k < lines.len() {
+        let e = (k + chunk).min(lines.len());
+        out.push(lines[k..e].concat());
+        k = e;
+    }
+    (out, chunk)
+}
+fn write_gz_members(p: PathBuf, texts: &[String]) -> PathBuf {
+    let mut f = std::fs::File::create(&p).unwrap();
+    for t in texts {
+        let mut enc = GzEncoder::new(Vec::new(), Compression::default());
+        enc.write_all(t.as_bytes()).unwrap();
+        f.write_all(&enc.finish().unwrap()).unwrap();
+    }
+    p
 }
 fn write_file_at(p: PathBuf, fmt: Fmt, text: &str) -> PathBuf {
     match fmt {
@@ -476,7 +514,7 @@ fn coq_onat(o: &Option<usize>) -> String {
 }
 
 /// writes the two files of a case; returns their paths, their line counts and the vertex rows as written
-fn write_case_files(root: &Path, id: usize, c: &Case) -> (PathBuf, PathBuf, usize, usize, Vec<Vec<(String, String)>>) {
+fn write_case_files(root: &Path, id: usize, c: &Case) -> (PathBuf, PathBuf, usize, usize, Vec<Vec<(String, String)>>, usize, usize) {
     let dir = match &c.seq {
         Some(tag) => root.join("data").join(format!("seq_{}", tag)),
         None => root.join("data").join(format!("case_{:05}", id)),
@@ -514,14 +552,29 @@ fn write_case_files(root: &Path, id: usize, c: &Case) -> (PathBuf, PathBuf, usiz
     } else {
         (write_file(&dir, "edges", c.el.fmt, &etext), write_file(&dir, "vertices", c.vl.fmt, &vtext))
     };
-    (ep, vp, elines, vlines, vrows)
+    // multi-member gzip: rewrite the file as several members; for the (single-member) readers the file is its first member
+    let multi = |l: &Layout, n: usize| l.fmt != Fmt::Plain && l.gz_members >= 2 && !l.empty_file && l.blank_lines == 0 && n >= 2;
+    let (mut elines, mut vlines, mut ne_eff, mut nv_eff) = (elines, vlines, c.erows.len(), c.vrows.len());
+    if multi(&c.el, c.erows.len()) {
+        let (texts, first) = split_members(&etext, 1, c.el.gz_members);
+        write_gz_members(ep.clone(), &texts);
+        ne_eff = first;
+        elines = 1 + first;
+    }
+    if multi(&c.vl, c.vrows.len()) {
+        let (texts, first) = split_members(&vtext, 1, c.vl.gz_members);
+        write_gz_members(vp.clone(), &texts);
+        nv_eff = first;
+        vlines = 1 + first;
+    }
+    (ep, vp, elines, vlines, vrows, ne_eff, nv_eff)
 }
 /// replay: re-create what the paths of a sequence held and were loaded as before the case itself
 fn prime_history(root: &Path, desc: &serde_json::Value) {
     if let Some(h) = desc["history"].as_array() {
         for v in h {
             let c: Case = serde_json::from_value(v.clone()).unwrap();
-            let (ep, vp, _, _, _) = write_case_files(root, 0, &c);
+            let (ep, vp, _, _, _, _, _) = write_case_files(root, 0, &c);
             let _ = catch(move || load(&c, &ep, &vp));
             if let Some(t) = serde_json::from_value::<Case>(v.clone()).unwrap().seq {
                 SEQ.lock().unwrap().push((t, v.clone()));
@@ -532,15 +585,19 @@ fn prime_history(root: &Path, desc: &serde_json::Value) {
 
 fn add_files_case(st: &mut Stream, root: &Path, c: Case, family: &str) {
     let id = st.next_id();
-    let (ep, vp, elines, vlines, vrows) = write_case_files(root, id, &c);
+    let (ep, vp, elines, vlines, vrows, ne_eff, nv_eff) = write_case_files(root, id, &c);
+    if ne_eff < c.erows.len() || nv_eff < c.vrows.len() {
+        st.count("multi_member_gzip(rows_beyond_first_member_absent)");
+    }
 
-    let coq_e = coq_list(&c.erows, |(i, s, d, q)| {
+    // (for a multi-member gzip file the model / specification get the rows of its first member: see Layout::gz_members)
+    let coq_e = coq_list(&c.erows[..ne_eff], |(i, s, d, q)| {
         format!("({},{},{},{})", coq_nat(*i), coq_nat(*s), coq_nat(*d), coq_z(*q as i128))
     });
     // the model / the specification get the coordinates as the exact decimals written in the file
     let coq_v = format!(
         "[{}]",
-        c.vrows
+        c.vrows[..nv_eff]
             .iter()
             .zip(vrows.iter())
             .map(|((i, _, _), t)| format!("({},{},{})", coq_nat(*i), Dec::parse(&t[1].1).coq(), Dec::parse(&t[2].1).coq()))
@@ -702,6 +759,9 @@ fn random_layout(r: &mut Rng, req: &[&str]) -> Layout {
     }
     l.pad = r.chance(1, 5);
     l.exp_form = r.chance(1, 8);
+    if l.fmt != Fmt::Plain && r.chance(1, 10) {
+        l.gz_members = 2 + r.below(2) as usize;
+    }
     l
 }
 fn vertices(r: &mut Rng, n: usize) -> Vec<(usize, i64, i64)> {
@@ -1043,6 +1103,36 @@ fn files_stream(a: &Args) {
             add_files_case(&mut st, &root, c, "columns_and_field_syntax");
         }
     }
+    // MULTI-MEMBER gzip files (`cat a.gz b.gz`): the readers decode the first member only, so the network is the one of
+    // the first member - line count (adjacency size), row reader and the missing-vertex guard must all agree on that
+    for members in [2usize, 3] {
+        for (which, explicit) in [("vertices", false), ("edges", false), ("both", false), ("vertices", true)] {
+            for dangling in [false, true] {
+                // star(8, ..): 8 vertices; hub 0; with `dangling` the edges reach the vertices of the later members
+                let mut c = if dangling { star(8, 7, 5) } else { star(8, 2, 1) };
+                if !dangling {
+                    for e in c.erows.iter_mut() {
+                        e.1 %= 2;
+                        e.2 %= 2;
+                    }
+                }
+                c.el.fmt = Fmt::GzExt;
+                c.vl.fmt = Fmt::GzNoExt;
+                if which != "edges" {
+                    c.vl.gz_members = members;
+                }
+                if which != "vertices" {
+                    c.el.gz_members = members;
+                }
+                if explicit {
+                    c.nv = Some(8);
+                }
+                c.el.trailing_newline = dangling;
+                c.vl.trailing_newline = !dangling;
+                add_files_case(&mut st, &root, c, "multi_member_gzip");
+            }
+        }
+    }
     // SEQUENCES of loads at the same two paths within this process: the files are rewritten with the other
     // compression / other rows / other sizes and loaded again (explicit and scanned counts, both entry points)
     {
@@ -1175,9 +1265,29 @@ struct TCase {
     /// member of a sequence of loads at the same path data/seq_<tag>/table.dat (see Case::seq)
     #[serde(default)]
     seq: Option<String>,
+    /// gzip only: multi-member gzip file; the readers decode the first member only (see Layout::gz_members)
+    #[serde(default)]
+    gz_members: usize,
+}
+/// the table file and the number of its lines (values, bad lines) the readers see
+fn table_first_member_rows(c: &TCase) -> usize {
+    if c.fmt != Fmt::Plain && c.gz_members >= 2 && c.lines.len() >= 2 {
+        (c.lines.len() + c.gz_members - 1) / c.gz_members
+    } else {
+        c.lines.len()
+    }
 }
 static TSEQ: std::sync::Mutex<Vec<(String, serde_json::Value)>> = std::sync::Mutex::new(Vec::new());
 fn write_table_file(root: &Path, id: usize, c: &TCase) -> PathBuf {
+    let p = write_table_file_single(root, id, c);
+    if table_first_member_rows(c) < c.lines.len() {
+        let head = if c.kind == Kind::Heading { 1 } else { 0 };
+        let (texts, _) = split_members(&table_text(c), head, c.gz_members);
+        write_gz_members(p.clone(), &texts);
+    }
+    p
+}
+fn write_table_file_single(root: &Path, id: usize, c: &TCase) -> PathBuf {
     match &c.seq {
         Some(tag) => {
             let dir = root.join("data").join(format!("seq_{}", tag));
@@ -1282,7 +1392,10 @@ fn add_table_case(st: &mut Stream, root: &Path, c: TCase, family: &str) {
     if header {
         coq_lines.push(None);
     }
-    coq_lines.extend(c.lines.iter().cloned());
+    coq_lines.extend(c.lines.iter().take(table_first_member_rows(&c)).cloned());
+    if table_first_member_rows(&c) < c.lines.len() {
+        st.count("multi_member_gzip(rows_beyond_first_member_absent)");
+    }
     let l = coq_list(&coq_lines, |o| coq_opt(o, |v| coq_z(*v as i128)));
     let terms = vec![
         format!("line_tm {} {} {}", id, coq_bool(header), l),
@@ -1363,7 +1476,7 @@ fn tables_stream(a: &Args) {
             for f in FMTS {
                 for nl in [true, false] {
                     let lines = (0..n as i64).map(|i| Some(match k { Kind::Heading => (10 * i + 4) * 512 + if i % 2 == 0 { 10 * i + 4 } else { 77 }, _ => 4 * i + 1 })).collect();
-                    add_table_case(&mut st, &root, TCase { kind: k, lines, fmt: f, trailing_newline: nl, bad_text: String::new(), extra_first: false, seq: None }, "small_tables");
+                    add_table_case(&mut st, &root, TCase { kind: k, lines, fmt: f, trailing_newline: nl, bad_text: String::new(), extra_first: false, seq: None, gz_members: 0 }, "small_tables");
                 }
             }
         }
@@ -1376,14 +1489,21 @@ fn tables_stream(a: &Args) {
                 if bt.is_empty() && pos == 2 {
                     bt = " ".into(); // an empty LAST line is not a line; a line holding a space is
                 }
-                add_table_case(&mut st, &root, TCase { kind: k, lines, fmt: FMTS[pos], trailing_newline: w != 1, bad_text: bt, extra_first: false, seq: None }, "undecodable_line");
+                add_table_case(&mut st, &root, TCase { kind: k, lines, fmt: FMTS[pos], trailing_newline: w != 1, bad_text: bt, extra_first: false, seq: None, gz_members: 0 }, "undecodable_line");
             }
         }
     }
     // the table read through the CSV reader, with an extra first TEXT column of CSV-special content
     for f in FMTS {
         let lines = (0..24i64).map(|i| Some((15 * i) * 512 + if i % 3 == 0 { 15 * i } else { 359 - i })).collect();
-        add_table_case(&mut st, &root, TCase { kind: Kind::Heading, lines, fmt: f, trailing_newline: true, bad_text: String::new(), extra_first: true, seq: None }, "heading_special_first_column");
+        add_table_case(&mut st, &root, TCase { kind: Kind::Heading, lines, fmt: f, trailing_newline: true, bad_text: String::new(), extra_first: true, seq: None, gz_members: 0 }, "heading_special_first_column");
+    }
+    // multi-member gzip tables: the readers decode the first member only
+    for k in kinds {
+        for members in [2usize, 3] {
+            let lines = (0..11i64).map(|i| Some(if k == Kind::Heading { (9 * i + 2) * 512 + 5 * i } else { 3 * i + 1 })).collect();
+            add_table_case(&mut st, &root, TCase { kind: k, lines, fmt: if members == 2 { Fmt::GzExt } else { Fmt::GzNoExt }, trailing_newline: members == 2, bad_text: String::new(), extra_first: false, seq: None, gz_members: members }, "multi_member_gzip");
+        }
     }
     // sequences of loads at the same path, the table rewritten with the other compression / other rows
     for (name, seqs) in [
@@ -1393,7 +1513,7 @@ fn tables_stream(a: &Args) {
     ] {
         for (k, f, n) in seqs {
             let lines = (0..n as i64).map(|i| Some(if k == Kind::Heading { (7 * i + n as i64) * 512 + 3 * i } else { 4 * i + n as i64 })).collect();
-            add_table_case(&mut st, &root, TCase { kind: k, lines, fmt: f, trailing_newline: n % 2 == 0, bad_text: String::new(), extra_first: false, seq: Some(name.to_string()) }, "reload_same_path");
+            add_table_case(&mut st, &root, TCase { kind: k, lines, fmt: f, trailing_newline: n % 2 == 0, bad_text: String::new(), extra_first: false, seq: Some(name.to_string()), gz_members: 0 }, "reload_same_path");
         }
     }
     let mut rng = Rng::new(a.seed);
@@ -1414,7 +1534,7 @@ fn tables_stream(a: &Args) {
             }
         }
         let extra_first = k == Kind::Heading && r.chance(1, 2);
-        add_table_case(&mut st, &root, TCase { kind: k, lines, fmt: *r.pick(&FMTS), trailing_newline: r.chance(1, 2), bad_text: bt, extra_first, seq: None }, family);
+        add_table_case(&mut st, &root, TCase { kind: k, lines, fmt: *r.pick(&FMTS), trailing_newline: r.chance(1, 2), bad_text: bt, extra_first, seq: None, gz_members: 0 }, family);
     }
     st.finish();
 }
@@ -1811,7 +1931,7 @@ fn graph_ops(c: &Case, ep: &PathBuf, vp: &PathBuf, dir: &Path) -> (String, Strin
 }
 fn add_ops_case(st: &mut Stream, root: &Path, c: Case, family: &str) {
     let id = st.next_id();
-    let (ep, vp, _, _, _) = write_case_files(root, id, &c);
+    let (ep, vp, _, _, _, _, _) = write_case_files(root, id, &c);
     let dir = ep.parent().unwrap().to_path_buf();
     let (cc, e2, v2) = (c.clone(), ep.clone(), vp.clone());
     let (topo, dist, coq_d) = catch(move || graph_ops(&cc, &e2, &v2, &dir)).unwrap_or_else(|e| {
@@ -1891,6 +2011,8 @@ fn graphops_stream(a: &Args) {
         let mut c = base_case(er, vr);
         c.el = random_layout(&mut r, &ECOLS);
         c.vl = random_layout(&mut r, &VCOLS);
+        c.el.gz_members = 0; // multi-member gzip files belong to the files / tables streams
+        c.vl.gz_members = 0;
         if r.chance(1, 3) {
             c.ne = Some(c.erows.len());
             c.nv = Some(c.vrows.len());
